@@ -16,7 +16,7 @@ func sched(name, params string, bound, shards int) Job {
 var checks = map[string]Check{
 	"C02": {
 		Level:       "model_checking",
-		Rule:        "stateless DFS over all thread interleavings of closed call/close/cut scenarios up to the stated preemption bound, crossed with every cut offset and a hostile-reply alphabet; an execution is non-trivial if it contains a context switch; distinct = distinct observation logs",
+		Rule:        "stateless DFS over all thread interleavings of closed call/close/cut scenarios up to the stated preemption bound (raw protocol; json/pb/thrift-binary/http at bound 0 quick, 1 thorough), crossed with every cut offset and a hostile-reply alphabet; an execution is non-trivial if it contains a context switch; distinct = distinct observation logs",
 		Assumptions: baseAssumptions,
 		Jobs: func(tier string) []Job {
 			var js []Job
@@ -26,6 +26,18 @@ var checks = map[string]Check{
 			}
 			for _, ev := range []string{"none", "localclose", "remoteclose", "break", "cutreq", "cutrep"} {
 				js = append(js, sched("c02_live", "proto=raw,calls=1,event="+ev, b, 16))
+			}
+			// the other wire protocols: all non-preemptive schedules (quick) / one preemption (thorough)
+			for _, pr := range []string{"json", "pb", "thrift", "http"} {
+				for _, ev := range []string{"none", "localclose", "remoteclose", "break", "cutreq", "cutrep"} {
+					j := sched("c02_live", "proto="+pr+",calls=1,event="+ev, 0, 1)
+					if tier == "thorough" {
+						j.Bound = 1
+						j.Shards = 4
+						j.Budget = 120
+					}
+					js = append(js, j)
+				}
 			}
 			// the caller consumes the completion from its own channel and reads the status at once
 			evs := []string{"remoteclose"}
@@ -446,6 +458,16 @@ var checks = map[string]Check{
 					}
 					js = append(js, j)
 				}
+			}
+			// repeated losses: the reconnected session loses its new connection again (break, then remote close)
+			for _, prm := range []string{"fault=idle,budget=1,down=0,losses=3", "fault=idle,budget=-1,down=3,losses=3", "fault=awaiting,budget=2,down=1,losses=2", "fault=write,budget=1,down=0,losses=2", "fault=idle,budget=1,down=0,losses=2,setid=0"} {
+				j := sched("c13", prm, 0, 1)
+				if tier == "thorough" {
+					j.Bound = 1
+					j.Shards = 4
+					j.Budget = 120
+				}
+				js = append(js, j)
 			}
 			// sessions that keep the default id (the dialled connection's address, which changes with every redial)
 			for _, f := range []string{"idle", "awaiting"} {
